@@ -226,6 +226,12 @@ impl Sess {
                     let f = self.fid(p);
                     ev.push(format!("sync {f}"));
                 }
+                ["rename", a, b] if b.starts_with('/') => {
+                    // destination outside the database directory (quarantine): for the store the file is gone
+                    self.track.remove(*a);
+                    let fa = self.fid(a);
+                    ev.push(format!("unlink {fa}"));
+                }
                 ["rename", a, b] => {
                     if let Some(e) = self.track.remove(*a) { self.track.insert(b.to_string(), e); }
                     let (fa, fb) = (self.fid(a), self.fid(b));
@@ -459,8 +465,10 @@ impl Sess {
             }
             ["plantstaging", content] => {
                 std::fs::create_dir_all(self.dir.join("staging")).expect("staging dir");
+                // numbered at once, like the model does (a later transaction gets the next number)
                 let name = format!("planted{}", self.staging.len() + self.planted);
-                self.planted += 1;
+                let id = self.staging.len() as u64;
+                self.staging.insert(name.clone(), id);
                 std::fs::write(self.dir.join("staging").join(name), crate::wire::unhx(content)).expect("plantstaging");
                 "ok".to_string()
             }
